@@ -649,8 +649,9 @@ fn collect_exec(template: &std::path::Path, variant: &str, prefix: &[usize]) -> 
     // ... and is gone from the proxy afterwards
     let p = proxy_json(&w);
     let waiting = p["child_details"]["h1"]["open_responses"].as_object().map(|o| o.len()).unwrap_or(0);
-    if waiting != 0 {
-        out.violations.push(("response-kept".into(), format!("after the child collected, the proxy still holds {waiting} response(s) for it (replies: {replies:?})")));
+    let distinct_asked = if keys[0] == keys[1] { 1 } else { 2 };
+    if waiting != 2 - distinct_asked {
+        out.violations.push(("response-kept".into(), format!("two responses were waiting and the child collected for {distinct_asked} key(s); the proxy now holds {waiting} response(s) for it (replies: {replies:?})")));
     }
     if w.krill.ca_manager().get_trust_anchor_proxy().is_err() {
         out.violations.push(("load".into(), "the proxy does not load after the concurrent requests".into()));
@@ -726,7 +727,7 @@ pub fn run_concurrent_collect(tier: &Tier, out: &mut crate::report::Outcome) -> 
 
 pub fn run(tier: &Tier, args: &[String]) -> i32 {
     let depth = crate::report::arg_value(args, "--depth").and_then(|d| d.parse().ok()).unwrap_or(if tier.thorough { 10 } else { 7 });
-    let cap = crate::report::arg_value(args, "--cap").and_then(|d| d.parse().ok()).unwrap_or(if tier.thorough { 1800 } else { 50 });
+    let cap = crate::report::arg_value(args, "--cap").and_then(|d| d.parse().ok()).unwrap_or(if tier.thorough { 1800 } else { 40 });
     let mut out = crate::report::Outcome::new("C15", tier, "model_checking");
     out.assumptions = vec![
         "the harness carries the messages between the embedded proxy and signer (hook H7 lets the signer process a request on its own); the scheduler is not run, so the exchange never happens by itself".into(),
